@@ -171,6 +171,7 @@ func NewWorldOnStoreDry(low storage.Store) bool {
 type dumpCase struct {
 	Contract  string
 	NoBallots bool // the stored ballot list is emptied first (planted write, not replayable on blocks)
+	Later     bool // the update happens eight years after the chain's start: recorded names (top-level ones too) have run out
 }
 
 type DumpGrid struct {
@@ -208,6 +209,10 @@ func (g *DumpGrid) Cases(string) []GridCase {
 		// the same storage once the recorded votes have run out (on the young chain of this check the recorded
 		// ballot heights would stay "fresh" for ever and the migration would never run): ballot list emptied
 		out = append(out, GridCase{Name: fmt.Sprintf("%s of dump %s, ballots run out", n, d.ID), Data: dumpCase{Contract: n, NoBallots: true}})
+		if n == "nns" {
+			// whatever the storage holds: also names - top-level ones included - whose term is over when the update comes
+			out = append(out, GridCase{Name: fmt.Sprintf("%s of dump %s, eight years later", n, d.ID), Data: dumpCase{Contract: n, Later: true}})
+		}
 	}
 	return out
 }
@@ -456,6 +461,10 @@ func (g *DumpGrid) Eval(x *Exec, root *Node, gc GridCase) GridResult {
 			}
 		}
 		return out
+	}
+	if c.Later {
+		root = &Node{L: root.L, H: root.H, TS: root.TS + 8*365*24*3600*1000, M: root.M}
+		x = &Exec{W: w} // not recorded for the block replay (the clock jump is outside the recorded call list)
 	}
 	if c.NoBallots {
 		si := root.L.GetStorageItem(dc.State.ID, []byte("ballots"))
